@@ -1,3 +1,4 @@
 INIT Init1
 NEXT Next
 INVARIANT SupergatesOK
+CHECK_DEADLOCK FALSE
